@@ -41,6 +41,9 @@ class ServerConn:
     def _opened(self, conn):
         S = sched.CURRENT
         self.opened_at = S.now
+        if self.plan.get("send_delay"):
+            # from now on every write of the client takes this long (a congested path)
+            conn.send_delay = self.plan["send_delay"]
         for item in self.plan.get("script", ()):
             dt, action, *args = item
             S.at(S.now + dt, self._do, action, args)
@@ -155,8 +158,14 @@ class AppRun:
             return ("unreachable",)
         if p["outcome"] == "timeout":
             return ("timeout",)
+        if p["outcome"] == "error":
+            return ("error", p["exc"]() if callable(p["exc"]) else p["exc"])
 
         def accept(conn, p=p, i=i):
+            if p.get("tls_error") is not None:
+                # the TCP connection is accepted, the TLS handshake on it fails (bad certificate, protocol error, ...)
+                conn.tls_error = p["tls_error"]() if callable(p["tls_error"]) else p["tls_error"]
+                return
             if self.via_proxy:
                 # the dialled address is the proxy: answer CONNECT, then the tunnelled connection follows the plan
                 buf = bytearray()
